@@ -188,6 +188,24 @@ def main():
         if canon({k: canon_fact(v) for k, v in snap.get("facts", {}).items()}) != canon({k: canon_fact(v) for k, v in snap.get("store", {}).items()}):
             ck.violation("after reopening, memory and storage differ (%s state)" % c["state"], {"case": c2, "snapshot": snap}, tag="reopen")
     lr.stats["crash_points"] = ncrash
+    # ---- D: back-end limits: whatever a storage back end refuses must surface as an error, never as an acknowledged write
+    # (bolt rejects keys above 32768 bytes and empty keys; nothing in core validates ids before they reach the back end)
+    dcases = []
+    for st in ("indexed", "linear"):
+        for sto in ("bolt", "mem"):
+            for n_ in (100, 32768, 32769, 40000):
+                big = "k" * n_
+                dcases.append({"kind": "loc", "state": st, "storage": sto, "locs": ["a"], "ops": [
+                    {"op": "addFact", "loc": "a", "id": big, "fact": {"k": 1}}, {"op": "reload", "loc": "a"}, {"op": "getFact", "loc": "a", "id": big}]})
+    dout = run_cases(lr.drv, dcases)
+    for c, o in zip(dcases, dout):
+        ck.count({"limits": len(c["ops"][0]["id"]), "s": c["state"], "sto": c["storage"]})
+        outs = o.get("outs") or []
+        if len(outs) == 3 and "ok" in outs[0] and "ok" not in outs[2]:
+            ck.violation("AddFact with a %d byte id was acknowledged on %s storage (%s state) but the fact is gone after reload: %s" % (
+                len(c["ops"][0]["id"]), c["storage"], c["state"], canon(outs[2])[:150]),
+                {"case": {kk: (v if kk != "ops" else [dict(op, id="k*%d" % len(op["id"])) for op in v]) for kk, v in c.items()}, "impl": [outs[0].get("err"), outs[2].get("err")]}, tag="limits")
+    lr.stats["backend_limit_cases"] = len(dcases)
     for c in casesA[:1] + fcases[:1] + ccases[:1]:
         ck.sample({k: (v if k != "ops" else v[:6]) for k, v in c.items()})
     lr.finish_cov("(A) histories of fact/rule/property/parent operations with reloads, {indexed, linear} x {memory, bolt}: every answer compared with the Lean model (whose reload is Load over the "
